@@ -187,6 +187,21 @@ def scheme_big_t5(rng):
     return [[0., b, rng.choice([t, b]), b3, b3 + rng.choice([0.0, 1.0]), b5], [t, t, 0., t34, t34, t5]]
 
 
+def scheme_magnitudes(rng):
+    """S14: penalties of unusual magnitude -- a preset scaled by 2^-30 (every cost difference far below 1e-8), or an
+    inversion cost 2^20 times the other penalties; all exactly representable"""
+    base = [list(v) for v in ref.PRESETS[rng.choice(["unifying", "pseudodistance", "induced", "unifying_half"])]]
+    if rng.random() < 0.5:
+        k = 2.0 ** -rng.choice([30, 34])
+        return scale(base, k)
+    big = 2.0 ** rng.choice([18, 20])
+    b = list(base[0])
+    b[1] = big
+    if rng.random() < 0.5:
+        b[2] = big
+    return [b, list(base[1])]
+
+
 def scheme_decimal(rng):
     return scheme_random(rng, grid=DECIMAL)
 
@@ -202,7 +217,7 @@ SCHEME_CLASSES = {
     "S1": scheme_preset, "S2": scheme_preset_multiple, "S3": scheme_random, "S4": scheme_perturbed,
     "S5": scheme_lookalike, "S6": scheme_degenerate, "S7": scheme_decimal, "S8": scheme_threshold,
     "S9": scheme_free_ties, "S10": scheme_near_tie, "S11": scheme_ratio_band, "S12": scheme_extreme_ratio,
-    "S13": scheme_big_t5,
+    "S13": scheme_big_t5, "S14": scheme_magnitudes,
 }
 
 
@@ -471,6 +486,13 @@ def _dataset(rng, cls, n, m, names, nmax, mmax):
                 else:
                     r.append([e])
             ds.append(r)
+        return ds
+    if cls == "D22":     # a small incomplete dataset whose rankings are replicated 1-6 times each: 10 to 30 rankings, equal
+        base = _dataset(rng, rng.choice(["D3", "D3", "D7", "D2"]), n, rng.randint(2, 5), names, nmax, mmax)   # means with
+        ds = []                                                          # different numbers of rankings behind them
+        for r in base:
+            for _ in range(rng.choice([1, 2, 3, 4, 6])):
+                ds.append([list(b) for b in r])
         return ds
     if cls == "D21":     # profile twins: pairs of elements that sit in the same bucket wherever they appear and are absent
         ds = _dataset(rng, rng.choice(["D3", "D3", "D4", "D2"]), n, max(m or 3, 3), names, nmax, mmax)    # together
